@@ -1,18 +1,14 @@
 //! C08 - hostile or vanishing peers cause an error return, never a panic or a hang.
-use serde_json::{Value, json};
+use serde_json::json;
 
 use crate::adv::{self, ByteMut, CrashAt, FaultAction, FaultPlan, Target, What};
 use crate::codec::{self, Density, MutOp};
-use crate::faults::{self, Config, FaultCase, Pilot};
+use crate::faults::{self, FaultCase};
 use crate::report::Report;
-use crate::shard::{self, CaseResult};
+use crate::shard;
 use crate::sim::DeadSend;
 
-pub struct World {
-    pub cfgs: Vec<Config>,
-    pub pilots: Vec<Pilot>,
-    pub cases: Vec<FaultCase>,
-}
+use crate::faults::World;
 
 fn structural(op: &MutOp) -> bool {
     matches!(op, MutOp::PopLast | MutOp::PopFirst | MutOp::DupLast | MutOp::Empty | MutOp::Halve | MutOp::SomeToNone | MutOp::NoneToSome | MutOp::BoolTwo)
@@ -20,8 +16,7 @@ fn structural(op: &MutOp) -> bool {
 
 pub fn build(tier: &str, seed: u64) -> World {
     let thorough = tier == "thorough";
-    let cfgs = faults::fault_configs(tier, seed);
-    let pilots: Vec<Pilot> = cfgs.iter().map(faults::pilot).collect();
+    let World { cfgs, pilots, .. } = World::new(tier, seed);
     let mut cases = vec![];
     for (ci, cfg) in cfgs.iter().enumerate() {
         let n = cfg.n();
@@ -89,17 +84,8 @@ pub fn build(tier: &str, seed: u64) -> World {
     World { cfgs, pilots, cases }
 }
 
-pub fn run_case(w: &World, idx: usize) -> Value {
-    let fc = &w.cases[idx];
-    let cfg = &w.cfgs[fc.cfg_ix];
-    let run = faults::exec_fault(cfg, fc, false);
-    faults::observe(cfg, fc, &run, &w.pilots[fc.cfg_ix].baseline_alloc)
-}
-
 pub fn child(tier: &str, seed: u64, a: shard::ShardArgs) {
-    crate::sim::set_quiet_panics(true);
-    let w = build(tier, seed);
-    shard::child_loop(w.cases.len(), a.shard, a.of, a.from, |i| run_case(&w, i));
+    build(tier, seed).child(a);
 }
 
 pub fn run(tier: &str, seed: u64) -> i32 {
@@ -110,71 +96,40 @@ pub fn run(tier: &str, seed: u64) -> i32 {
         "allocation bound: a single request attributed to an honest party must stay below max(8 MiB, 64 x bytes received) + honest baseline".into(),
     ];
     let w = build(tier, seed);
-    for (p, cfg) in w.pilots.iter().zip(&w.cfgs) {
-        if !p.ok {
-            rep.harness_error(format!("pilot run of {} is not an honest success", cfg.name));
-        }
-        for e in &p.schema_errors {
-            rep.harness_error(format!("schema table out of date: {e}"));
-        }
-    }
-    let results = shard::run_parent("C08", tier, seed, w.cases.len(), crate::runner::threads(), &[]);
     let mut by_label = std::collections::BTreeMap::new();
     let mut outcome_hist = std::collections::BTreeMap::new();
-    for (fc, r) in w.cases.iter().zip(results) {
-        rep.evaluations += 1;
-        let cfg = &w.cfgs[fc.cfg_ix];
+    let mut n_samples = 0u64;
+    w.drive("C08", tier, seed, &mut rep, |rep, fc, cfg, v| {
         let via = format!("label={} mut={}", fc.label, fc.class);
-        match r {
-            CaseResult::Aborted(desc, stderr) => {
-                if stderr.contains("memory allocation of") || stderr.contains("capacity overflow") {
-                    rep.violation(format!("process abort (allocation failure) via {via}"), json!({"cfg": cfg.name, "corrupt": fc.plan.corrupt, "class": fc.class, "label": fc.label, "abort": desc, "stderr": stderr}));
-                } else {
-                    rep.harness_error(format!("shard died ({desc}) in case {via}: {stderr}"));
-                }
+        let effective = faults::effective(fc, v);
+        if effective {
+            rep.distinct.insert(format!("{}|c{}|{}|{}", cfg.name, fc.plan.corrupt, fc.label, fc.class));
+        }
+        *by_label.entry(fc.label.clone()).or_insert(0u64) += 1;
+        let mut bad = false;
+        for h in faults::honest_of(v) {
+            let oc = v["outcomes"][h].as_str().unwrap_or("?").to_string();
+            *outcome_hist.entry(oc.split(':').next().unwrap_or("?").split('@').next().unwrap_or("?").to_string()).or_insert(0u64) += 1;
+            if oc.starts_with("Panic@") {
+                rep.violation(format!("{} via {via}", oc.replace("Panic@", "panic@")), v.clone());
+                bad = true;
+            } else if oc == "Unfinished" {
+                rep.violation(format!("hang (no runnable task, peers terminated) via {via}"), v.clone());
+                bad = true;
             }
-            CaseResult::Done(v) => {
-                let end = v["end"].as_str().unwrap_or("");
-                if end.starts_with("HarnessError") {
-                    rep.harness_error(format!("{end} in {via}"));
-                    continue;
-                }
-                if end == "StepLimit" {
-                    rep.inconclusive("step limit");
-                    continue;
-                }
-                let effective = v["applied"].as_u64().unwrap_or(0) > 0 || fc.class.starts_with("crash") || fc.class.starts_with("silent");
-                if effective {
-                    rep.distinct.insert(format!("{}|c{}|{}|{}", cfg.name, fc.plan.corrupt, fc.label, fc.class));
-                }
-                *by_label.entry(fc.label.clone()).or_insert(0u64) += 1;
-                let honest: Vec<usize> = v["honest"].as_array().map(|a| a.iter().filter_map(|x| x.as_u64()).map(|x| x as usize).collect()).unwrap_or_default();
-                let mut bad = false;
-                for h in honest {
-                    let oc = v["outcomes"][h].as_str().unwrap_or("?").to_string();
-                    *outcome_hist.entry(oc.split(':').next().unwrap_or("?").split('@').next().unwrap_or("?").to_string()).or_insert(0u64) += 1;
-                    if oc.starts_with("Panic@") {
-                        rep.violation(format!("{} via {via}", oc.replace("Panic@", "panic@")), v.clone());
-                        bad = true;
-                    } else if oc == "Unfinished" {
-                        rep.violation(format!("hang (no runnable task, peers terminated) via {via}"), v.clone());
-                        bad = true;
-                    }
-                    let req = v["max_alloc_req"][h].as_u64().unwrap_or(0);
-                    let bound = v["alloc_bound"][h].as_u64().unwrap_or(u64::MAX);
-                    if req > bound {
-                        rep.violation(format!("allocation out of proportion via {via}"), v.clone());
-                        bad = true;
-                    }
-                }
-                if !bad && rep.samples.len() < 6 && effective && rep.evaluations % 97 == 1 {
-                    rep.sample(v);
-                }
+            let req = v["max_alloc_req"][h].as_u64().unwrap_or(0);
+            let bound = v["alloc_bound"][h].as_u64().unwrap_or(u64::MAX);
+            if req > bound {
+                rep.violation(format!("allocation out of proportion via {via}"), v.clone());
+                bad = true;
             }
         }
-    }
+        n_samples += 1;
+        if !bad && effective && n_samples % 97 == 1 {
+            rep.sample(v.clone());
+        }
+    });
     rep.set("cases_per_label", json!(by_label));
     rep.set("honest_outcome_histogram", json!(outcome_hist));
-    rep.set("configurations", json!(w.cfgs.iter().map(|c| c.name.clone()).collect::<Vec<_>>()));
     rep.finish()
 }
